@@ -259,6 +259,9 @@ type ObserveOpts struct {
 	WithArgs bool
 	// Before is called before each method invocation (event discipline); may be nil.
 	Before func(name string)
+	// UnaryFuncs also calls the exported package-level functions that take exactly one parameter of
+	// the value's type (see UnaryFuncSweep), on the value and on every nested value that is swept.
+	UnaryFuncs bool
 }
 
 // Observe invokes every exported method that takes no argument besides the receiver on v
@@ -276,6 +279,12 @@ func observe(rv reflect.Value, path string, opt ObserveOpts, depth int, out *[]O
 	}
 	t := rv.Type()
 	tn := baseName(t)
+	if opt.UnaryFuncs && rv.CanInterface() {
+		for _, o := range UnaryFuncSweep(rv.Interface(), opt.Before) {
+			o.Name = path + o.Name
+			*out = append(*out, o)
+		}
+	}
 	for i := 0; i < t.NumMethod(); i++ {
 		m := t.Method(i)
 		if opt.WithArgs && m.Type.NumIn() == 2 && !m.Type.IsVariadic() && !skipMethods[m.Name] && !mutators[m.Name] {
@@ -460,6 +469,66 @@ func Diff(a, b []Obs) []string {
 		if p.Panicked != o.Panicked || p.Result != o.Result {
 			out = append(out, o.Name)
 		}
+	}
+	return out
+}
+
+// unaryFuncSkip: package-level functions that are documented to modify their argument.
+var unaryFuncSkip = map[string]bool{"data.ValuesToMapping": true}
+
+// UnaryFuncSweep calls every exported package-level function of the library (taken from the census
+// of the working tree) that takes exactly one parameter of v's type — by value or by pointer —
+// with v, recovering panics: GetCryptoTypeFromCertificate(cert), KeyCertificateFromCertificate(&cert),
+// NewDestination(kac), … These are accessors in everything but syntax, and no method sweep sees them.
+func UnaryFuncSweep(v any, before func(name string)) []Obs {
+	rv := reflect.ValueOf(v)
+	if !rv.IsValid() {
+		return nil
+	}
+	var out []Obs
+	names := make([]string, 0, len(CensusFuncValues))
+	for n := range CensusFuncValues {
+		names = append(names, n)
+	}
+	sort.Strings(names)
+	for _, name := range names {
+		fn := CensusFuncValues[name]
+		ft := fn.Type()
+		if ft.NumIn() != 1 || ft.IsVariadic() || unaryFuncSkip[name] {
+			continue
+		}
+		var arg reflect.Value
+		switch in := ft.In(0); {
+		case in == rv.Type():
+			arg = rv
+		case rv.Kind() == reflect.Ptr && !rv.IsNil() && in == rv.Type().Elem():
+			arg = rv.Elem()
+		case rv.Kind() != reflect.Ptr && in.Kind() == reflect.Ptr && in.Elem() == rv.Type():
+			p := reflect.New(rv.Type())
+			p.Elem().Set(rv)
+			arg = p
+		default:
+			continue
+		}
+		o := Obs{Name: name + "(" + baseName(rv.Type()) + ")"}
+		if before != nil {
+			before(o.Name)
+		}
+		func() {
+			defer func() {
+				if r := recover(); r != nil {
+					o.Panicked, o.Panic, o.Stack = true, fmt.Sprint(r), string(debug.Stack())
+				}
+			}()
+			res := fn.Call([]reflect.Value{arg})
+			var sb strings.Builder
+			for _, x := range res {
+				render(&sb, x, 0, false)
+				sb.WriteString(";")
+			}
+			o.Result = sb.String()
+		}()
+		out = append(out, o)
 	}
 	return out
 }
